@@ -193,12 +193,16 @@ func c02MultiCase(c *Case, rng *Rng) {
 	changesAfterLeave := 0
 	for step := rng.Range(5, 10); ok && step > 0; step-- {
 		r := rng.Intn(100)
+		var held *c02Held
 		switch {
 		case r < 22 && len(x.active) >= 2:
 			x.stopOne()
 		case r < 32 && x.nextID < 5:
 			ok = x.spawn()
 		default:
+			if len(x.active) > 0 && rng.Chance(40) {
+				held = e.hold(x.active[rng.Intn(len(x.active))])
+			}
 			_, before := x.sharing()
 			for j := rng.Range(1, 3); j > 0; j-- {
 				h.randomOp(x.base.kind, false)
@@ -219,6 +223,9 @@ func c02MultiCase(c *Case, rng *Rng) {
 			}
 		}
 		ok = ok && x.snapAll()
+		if held != nil && c.Inconcl == "" {
+			ok = e.lookAgain(held) && ok
+		}
 	}
 	x.sharing()
 	c.Nontrivial = h.creates >= 2 && (h.deletes+h.mods+h.nsOps) >= 2 && x.joins >= 2
